@@ -11,6 +11,7 @@ used the centroid in both places: right for two ideal points (`sphere_parameters
 wrong from three on (`sphere_k3_counterexample`, `halfspace_k3_counterexample`).
 -/
 import GT.Lemmas.Circle
+import GT.Lemmas.ArcCyclic
 import GT.Properties.C01
 import Mathlib.Tactic.NormNum
 import Mathlib.Tactic.FinCases
@@ -640,6 +641,34 @@ theorem horoArc_perm (u v ref : K × K) :
   split_ifs with h
   · exact Or.inl rfl
   · exact Or.inr rfl
+
+/-- **`utils.arc_include` at full strength**: whichever order it returns, the reference direction lies on the
+counter-clockwise arc from the first returned direction to the second (it does not come strictly after the second one,
+counter-clockwise from the first).  Directions are the non-zero vectors whose `arctan2` the code takes; `u ≠ 0`, and `v`
+is not a positive multiple of `u` (the arc would be degenerate).  This supersedes the permutation-only statement
+`horoArc_perm` for the un-flipped routine. -/
+theorem arcInclude_contains (u v ref : K × K) (hu : 0 < dot2 u u) (huv : cross2 u v ≠ 0 ∨ dot2 u v < 0) :
+    angLt (relDir (arcInclude u v ref).1 (arcInclude u v ref).2) (relDir (arcInclude u v ref).1 ref) = false := by
+  unfold arcInclude
+  split_ifs with h
+  · exact angLt_swap u v ref hu huv h
+  · simpa using h
+
+/-- **`HorosphereArc.circle_parameters`** flips the result of `arc_include` taken with the direction of the ideal centre as
+reference: counter-clockwise from the *second* reported direction to the *first*, one passes the centre's direction — so the
+arc that is drawn (counter-clockwise from the first to the second) is the one that avoids the ideal centre of the horosphere -/
+theorem horoArc_excludes (u v ref : K × K) (hu : 0 < dot2 u u) (huv : cross2 u v ≠ 0 ∨ dot2 u v < 0) :
+    angLt (relDir (horoArc u v ref).2 (horoArc u v ref).1) (relDir (horoArc u v ref).2 ref) = false := by
+  unfold horoArc
+  exact arcInclude_contains u v ref hu huv
+
+/-- non-vacuity: a quarter-turn configuration over ℚ in which the swap branch is taken -/
+example : arcInclude ((1 : ℚ), 0) (0, 1) (-1, -1) = ((0, 1), (1, 0)) ∧ (0 : ℚ) < dot2 ((1 : ℚ), 0) (1, 0) ∧
+    cross2 ((1 : ℚ), 0) (0, 1) ≠ 0 := by
+  refine ⟨?_, ?_, ?_⟩
+  · simp [arcInclude, angLt, upperHalf, relDir, dot2, cross2]
+  · norm_num [dot2]
+  · norm_num [cross2]
 
 /-- every point of the reported circle is the Poincaré image of a point of the Klein
 hyperplane `x·m = |m|²` that contains the geodesic: a point `u` with `|u - c|² = ρ²`, where
